@@ -298,7 +298,15 @@ func propC02umemo(a *Analysis, r *Registry, b *B) {
 			e.Set("twoUp", bot.twoUp, nil)
 			e.Set("k", bot.mapIdx.Add(S.Int(1)), nil)
 			asum := fc.Val(stepUpd.Value)
-			_, an := fc.Recurrence(asum)
+			ai, an := fc.Recurrence(asum)
+			b.EqRF(rB, name+"/step/sum-from-zero", where, ai, S.Int(0), "the count of a key is accumulated from 0")
+			// stored under the key it was computed for, taken from the table being filled
+			kv := fc.Val(stepUpd.Key)
+			if ra := FindFn(kv, "range"); len(ra) == 1 {
+				b.EqRF(rB, name+"/step/stored-under", where, ra[0].Args[0], S.MakeFn("idx", ASl, bot.mapIdx.Add(S.Int(1))), "the count is stored under the key gone through, a key of A[k]")
+			} else {
+				r.Fail(rB, name+"/step/stored-under", where, "the count is not stored under the key being gone through: "+clip(kv.String(), 120))
+			}
 			lo := bot.rk
 			_ = lo
 			// TS of the bottom pass
@@ -312,6 +320,48 @@ func propC02umemo(a *Analysis, r *Registry, b *B) {
 			b.Eq(rB, name+"/step/stored-at", where, fc.Val(stepUpd.Map), e, "A[k]")
 		})
 	}
+	if stepUpd == nil && bot != nil {
+		r.Fail(rB, name+"/step", b.pos(fn), "the bottom-up pass never stores the accumulated count into A[k]: every count above the base case stays 0")
+	}
+	// the tables exist before they are used: A[K] seeded with the key asked for, A[k] made in the
+	// top-down pass
+	b.guard(rB, name+"/tables", func() {
+		seeded, made := false, false
+		fc.Ctx.Instrs(func(in ssa.Instruction) {
+			st, ok := in.(*ssa.Store)
+			if !ok {
+				return
+			}
+			at := fc.Val(st.Addr).SingleAtom()
+			if at == nil || at.Name != "&idx" || !at.Args[0].Equal(ASl) {
+				return
+			}
+			if at.Args[1].Equal(env.MustParse("len(t)")) {
+				seeded = true
+			}
+			if top != nil && at.Args[1].Equal(top.mapIdx) {
+				made = true
+			}
+		})
+		nSeedKey := 0
+		fc.Ctx.Instrs(func(in ssa.Instruction) {
+			if mu, ok := in.(*ssa.MapUpdate); ok && fc.Ctx.LoopOf(mu.Block()) == nil {
+				if ka := fc.Val(mu.Key).SingleAtom(); ka != nil && ka.Name == "mk:ukey" && ka.Args[0].Equal(env.MustParse("n1")) && ka.Args[1].Equal(env.MustParse("twoU")) {
+					nSeedKey++
+				}
+			}
+		})
+		if seeded && nSeedKey == 1 {
+			r.OK(rB, name+"/tables/seed", b.pos(fn), "A[K] is created holding the key {n1, twoU} that was asked for")
+		} else {
+			r.Fail(rB, name+"/tables/seed", b.pos(fn), "A[len(t)] is not created holding exactly the key {n1, twoU} asked for: the recurrence has nothing to start from")
+		}
+		if top == nil || made {
+			r.OK(rB, name+"/tables/made", b.pos(fn), "the top-down pass creates A[k] before recording keys in it")
+		} else {
+			r.Fail(rB, name+"/tables/made", b.pos(fn), "the top-down pass records keys in a table A[k] it never creates")
+		}
+	})
 	b.guard(rB, name+"/returns", func() {
 		b.EqRF(rB, name+"/returns", b.pos(fn), fc.RetVal(0), ASl, "returns the memo table")
 	})
